@@ -1,5 +1,6 @@
 import OdfModel.Gen.Dispatch
 import OdfProps.C18
+import OdfProofs.Coord
 
 /-!
 # C06 — typed values survive the trip through the document for every value of every type
@@ -51,6 +52,9 @@ theorem duration_codec (total : Int) :
 theorem datetime_codec (t : Odf.Codec.DateTime) (hv : t.valid) :
     Odf.Codec.decodeDateTime (Odf.Codec.encodeDateTime t) = some t := Odf.C18.datetime_roundtrip t hv
 theorem bool_codec (b : Bool) : Odf.Codec.decodeBool (Odf.Codec.encodeBool b) = some b := Odf.C18.bool_roundtrip b
+
+/-- an integer of any size and sign is written (`str(v)`) and read (`int(...)`) without loss -/
+theorem int_lexical (z : Int) : Odf.Coord.parseInt (Odf.Coord.intToStr z) = some z := Odf.Coord.parseInt_intToStr z
 
 /-- a chain that tested `date` before `datetime` would send datetimes to the date branch: the
     theorems above are not vacuous -/
